@@ -785,9 +785,29 @@ class Gen:
                     break
                 if kind == "CROSS JOIN" and src.kind != "table" and not f.get("cross_join_derived", True):
                     kind = "JOIN"
+                natural = False
+                if f.get("natural_join") and kind in ("JOIN", "INNER JOIN", "LEFT JOIN") and self.chance(f["natural_join"]):
+                    # NATURAL JOIN: the common columns are taken from *all* relations joined so far. Allowed when every common
+                    # name occurs exactly once on the left (engines reject it otherwise) with the same type
+                    left_cols = [c for s2 in scope for c in s2.cols]
+                    left_names = [c[0] for c in left_cols]
+                    common = [c for c in src.cols if c[0] in left_names]
+                    if common and all(left_names.count(c[0]) == 1 and next(l for l in left_cols if l[0] == c[0])[1] == c[1] for c in common) \
+                            and len({c[0] for c in src.cols}) == len(src.cols):
+                        natural = True
+                        kind = "NATURAL " + kind
+                        q.natural_merged = getattr(q, "natural_merged", []) + [
+                            (c[0], c[1], {src.alias, next(s2.alias for s2 in scope if any(l[0] == c[0] for l in s2.cols))}) for c in common]
+                        self.tags.add("join:natural")
+                        if len(scope) > 1:
+                            self.tags.add("join:natural-after-other-joins")
                 self.tags.add("join:" + kind.split()[0].lower())
                 on = using = None
-                if kind != "CROSS JOIN":
+                if natural:
+                    for s2 in scope + [src]:
+                        s2.force_qualify = True
+                    q.using_merged = True
+                elif kind != "CROSS JOIN":
                     lk = [c for s in scope for c in s.cols if c[0] == "k"]
                     rk = [c for c in src.cols if c[0] == "k"]
                     if f["using"] and lk and rk and len(scope) == 1 and self.chance(0.25) and kind not in ("SEMI JOIN", "ANTI JOIN"):
@@ -919,6 +939,16 @@ class Gen:
                 else:
                     q.projs.append((e, alias))
                     q.out.append((alias, ty, self.prov(e, scope)))
+            for mname, mty, msrcs in (getattr(q, "natural_merged", None) or []):
+                # (only while the name is not ambiguous again: no relation joined later carries it too)
+                holders = {s2.alias for s2 in scope if any(c2[0] == mname for c2 in s2.cols)}
+                if holders == msrcs and self.chance(0.7) and mty in (INT, TEXT):
+                    # the merged column of a NATURAL JOIN, un-qualified: it stands for COALESCE(left.c, right.c)
+                    e = ("col", None, mname, mty, scope[0].alias)
+                    alias = self.new_alias("p")
+                    q.projs.append((e, alias))
+                    q.out.append((alias, mty, self.prov(e, scope)))
+                    self.tags.add("join:natural-merged-column-projected")
             if f["distinct"] and self.chance(0.15):
                 q.distinct = True
                 self.tags.add("distinct")
